@@ -72,8 +72,8 @@ func Solve(roots []*smt.Term, solvers []string, timeoutS int, scratch string, ta
 	if err := os.WriteFile(file, []byte(sb.String()), 0o644); err != nil {
 		return SolveResult{Status: "error", Raw: err.Error()}
 	}
-	type res struct {
-		r SolveResult
+	if os.Getenv("GOSMT_KEEP") == "" {
+		defer os.Remove(file) // query files can be hundreds of MB: never leave them behind
 	}
 	ctx, cancel := context.WithCancel(context.Background())
 	defer cancel()
